@@ -323,6 +323,11 @@ func checkC13(c *Check) {
 	}
 	c.notFoundClassifier(run)
 	c.inventoryClientRules("R4")
+	// the monitor recognises "its" lease / order events by comparing ids: equal means every field equal (shared with
+	// C06-R6); the ceiling it bids under is the group's price (shared with C08-R1)
+	c.idEqualsComplete("R4")
+	c.orderMaximumShape("R2")
+	c.orderMonitorSubscription("R4")
 	c.cancelBeforeDrain("R5", run)
 	// the close-bid (and every other) transaction of the order monitor is broadcast under a context that ends only when
 	// the monitor cancels it: a context with a deadline has always expired by the time the clean-up runs after a bid
